@@ -54,7 +54,7 @@ def cases(tier, seed, shard, nshards):
             r = rng.random()
             ops.append("adv" if r < 0.35 else "g-1" if r < 0.72 else rng.choice(["g-2", "g0", "g-3"]) if r < 0.9
                        else rng.choice(["c-1", "c-1", "c-2", "c0"]))
-        case = {"keys": keys, "key": rng.choice([None, "half", "ahalf", "aident", "noneodd", "anoneodd", "tuple"]), "ops": ops,
+        case = {"keys": keys, "key": rng.choice([None, "half", "ahalf", "aident", "noneodd", "anoneodd", "tuple", "onesided", "aonesided"]), "ops": ops,
                 "flav": rng.choice(["list", "async_gen", "async_class", "sync_iter"]), "susp": rng.choice([0, 0, 1])}
         if case["key"] is not None and keys and rng.random() < 0.12:
             # the key function fails ONCE, for its k-th item, and the consumer carries on with the same operations:
@@ -63,9 +63,40 @@ def cases(tier, seed, shard, nshards):
         yield case
 
 
+class WideKey:
+    """Reflexive but one-sided equality: a WideKey claims to equal NarrowKeys as well, a NarrowKey only its own
+    kind.  ``old == new`` and ``new == old`` then differ; itertools.groupby asks the key of the RUNNING group
+    (``tgtkey == currkey``), and only ``==``."""
+    __hash__ = None
+
+    def __eq__(self, other):
+        return isinstance(other, (WideKey, NarrowKey))
+
+    def __ne__(self, other):  # (never consulted by the counterpart)
+        return True
+
+    def __repr__(self):
+        return "WideKey"
+
+
+class NarrowKey:
+    __hash__ = None
+
+    def __eq__(self, other):
+        return isinstance(other, NarrowKey)
+
+    def __ne__(self, other):
+        return True
+
+    def __repr__(self):
+        return "NarrowKey"
+
+
 def _key_impl(kname):
     if kname is None:
         return None
+    if kname.endswith("onesided"):
+        return lambda x: WideKey() if x.key % 2 else NarrowKey()
     if kname.endswith("half"):
         return lambda x: x.key // 2
     if kname.endswith("noneodd"):
